@@ -22,6 +22,13 @@ former counterexample witnesses (`capBelowWf`, `capZero`, `capAtFirst`, `emptyWi
 the repaired `check` rejects each of them with a configuration error; they are also in
 corpus/C18 and replayed against the real code on every run.
 
+Later repair 971ccbc: `check_config` also rejects a `[current]` table written for another number of
+interfaces (`Cfg.curSize`, `sizeTest`, the `size` clause of `Valid`; the code before it is kept as
+`checkAsIs` / `startUpAsIs`, witness `restart_size_mismatch_asIs_counterexample`).  `setup_internal` is
+modelled with the state sized by `[current].size` (`setupInternal`, `loadPathsW`: ValueError when the weight
+vector is not as wide as the state); `setupInternalAligned` is the case size = number of interfaces, which is
+all an accepted configuration can reach (`setupInternal_eq_aligned`, `accepted_size`).
+
 What remains guarded: `check_config` can still raise KeyError (not TOMLConfigError) from the
 gromacs loop, which pops `input_path` from every referenced engine as soon as one engine is of
 class gromacs (`gromacs_key_error_witness`).  This only happens to configurations that are
@@ -58,6 +65,9 @@ structure Valid (c : Cfg) : Prop where
   capRoom : ∀ x, c.cap = some x → WfRoom c x
   engines : EnginesDefined c
   lm1 : ∀ x, c.lm1 = .val x → ∃ f, c.interfaces.head? = some f ∧ x < f
+  /-- restart inputs: the `[current]` table was written for this number of interfaces (/repo 971ccbc);
+      nothing to ask when the dictionary has no `[current]` table -/
+  size : ∀ s, c.curSize = some s → s = c.interfaces.length
 
 /-- every ensemble has a non-empty engine list (what the first picks index into) -/
 def EnginesCover (c : Cfg) : Prop :=
@@ -71,6 +81,7 @@ structure PreOk (c : Cfg) : Prop where
   workers : c.workers ≤ (c.interfaces.length : Int) - 1
   sorted : c.interfaces.Pairwise (· < ·)
   moves : c.interfaces.length ≤ c.moves.length
+  size : ∀ s, c.curSize = some s → s = c.interfaces.length
   capInside : ∀ x, c.cap = some x → CapInside c x
   capRoom : ∀ x, c.cap = some x → WfRoom c x
   cover : EnginesCover c
@@ -207,6 +218,19 @@ theorem roomLoop_error (x : Int) (e : Err) : ∀ (intf : List Int) (ms : List Bo
       split
       · intro he; cases he; rfl
       · exact ih ms' (by simpa using h)
+
+theorem sizeTest_ok_iff (c : Cfg) :
+    sizeTest c = .ok () ↔ ∀ s, c.curSize = some s → s = c.interfaces.length := by
+  unfold sizeTest
+  cases h : c.curSize with
+  | none => simp
+  | some s => simp [rejectIf_ok_iff]
+
+theorem sizeTest_error (c : Cfg) (e : Err) : sizeTest c = .error e → e = .config := by
+  unfold sizeTest
+  cases c.curSize with
+  | none => simp
+  | some s => exact rejectIf_error _ e
 
 theorem slice_length (intf : List Int) (moves : List Bool) :
     ((moves.drop 1).take (intf.length - 1)).length ≤ intf.length := by
@@ -346,23 +370,23 @@ theorem preCheck_ok_iff (c : Cfg) : preCheck c = .ok () ↔ PreOk c := by
   simp only [seq_ok_iff, rejectIf_ok_iff, lm1Test_ok_iff, decide_eq_false_iff_not,
     Bool.and_eq_false_iff, ← Bool.not_eq_true (lm1Truthy c.lm1), lm1Truthy_iff,
     Decidable.not_not, isort_eq_self_iff, distinct_length_eq_iff, roomTest_ok_iff,
-    engineListTest_ok_iff]
+    engineListTest_ok_iff, sizeTest_ok_iff]
   constructor
-  · rintro ⟨h1, h2, h3, h4, h5, h6, h7, h8, h9, h10, h11⟩
+  · rintro ⟨h1, h2, h3, h4, h5, h6, h7, hsz, h8, h9, h10, h11⟩
     have hne : c.interfaces ≠ [] := by
       intro h; rw [h] at h1; simp at h1
     rw [capTest_ok_iff _ _ hne] at h8
-    refine ⟨by omega, h2, ?_, by omega, (pairwise_lt_iff _).2 ⟨h5, h6⟩, by omega, h8, h9, h10, h11⟩
+    refine ⟨by omega, h2, ?_, by omega, (pairwise_lt_iff _).2 ⟨h5, h6⟩, by omega, hsz, h8, h9, h10, h11⟩
     rintro ⟨hq, hx⟩
     rcases h3 with h3 | h3
     · simp [hq] at h3
     · exact h3 hx
-  · rintro ⟨h1, h2, h3, h4, h5, h6, h7, h8, h9, h10⟩
+  · rintro ⟨h1, h2, h3, h4, h5, h6, hsz, h7, h8, h9, h10⟩
     have hne : c.interfaces ≠ [] := by
       intro h; rw [h] at h1; simp at h1
     rw [capTest_ok_iff _ _ hne]
     refine ⟨by omega, h2, ?_, by omega, ((pairwise_lt_iff _).1 h5).1, ((pairwise_lt_iff _).1 h5).2,
-      by omega, h7, h8, h9, h10⟩
+      by omega, hsz, h7, h8, h9, h10⟩
     by_cases hq : c.quantis = some true
     · right; intro hx; exact h3 ⟨hq, hx⟩
     · left; simpa using hq
@@ -373,7 +397,7 @@ theorem preCheck_error (c : Cfg) (e : Err) (hne : c.ensEngines ≠ none)
     (h : preCheck c = .error e) : e = .config := by
   unfold preCheck at h
   simp only [seq_error_iff, rejectIf_ok_iff, decide_eq_false_iff_not] at h
-  rcases h with h | ⟨h1, h | ⟨_, h | ⟨_, h | ⟨_, h | ⟨_, h | ⟨_, h | ⟨_, h | ⟨_, h | ⟨_, h⟩⟩⟩⟩⟩⟩⟩⟩⟩
+  rcases h with h | ⟨h1, h | ⟨_, h | ⟨_, h | ⟨_, h | ⟨_, h | ⟨_, h | ⟨_, h | ⟨_, h | ⟨_, h | ⟨_, h⟩⟩⟩⟩⟩⟩⟩⟩⟩⟩
   · exact rejectIf_error _ e h
   · refine lm1Test_error _ _ e ?_ h
     intro hn; rw [hn] at h1; simp at h1
@@ -382,6 +406,7 @@ theorem preCheck_error (c : Cfg) (e : Err) (hne : c.ensEngines ≠ none)
   · exact rejectIf_error _ e h
   · exact rejectIf_error _ e h
   · exact rejectIf_error _ e h
+  · exact sizeTest_error c e h
   · refine capTest_error _ _ e ?_ h
     intro hn; rw [hn] at h1; simp at h1
   · exact roomTest_error c e h
@@ -416,7 +441,7 @@ example : CodeOk good := (check_ok_iff good).1 (by decide)
 
 theorem PreOk.valid {c : Cfg} (h : PreOk c) : Valid c :=
   { sorted := h.sorted, two := h.two, workers := h.workers, moves := h.moves,
-    capInside := h.capInside, capRoom := h.capRoom, engines := h.engines, lm1 := h.lm1 }
+    capInside := h.capInside, capRoom := h.capRoom, engines := h.engines, lm1 := h.lm1, size := h.size }
 
 /-- **Soundness of acceptance.** Every configuration `check_config` lets through satisfies the
     property's whole list: strictly increasing interfaces, at least two, workers ≤ n−1,
@@ -451,7 +476,7 @@ theorem valid_accepted (c : Cfg) (hv : Valid c)
   rw [check_ok_iff]
   exact {
     pre := { two := hv.two, lm1 := hv.lm1, noQuantisLm1 := hq, workers := hv.workers,
-             sorted := hv.sorted, moves := hv.moves, capInside := hv.capInside,
+             sorted := hv.sorted, moves := hv.moves, size := hv.size, capInside := hv.capInside,
              capRoom := hv.capRoom, cover := hcov, engines := hv.engines }
     gromacs := fun ee _ k1 e1 _ hl hc => absurd hc (hg (k1, e1) (lookup_mem hl)) }
 
@@ -544,9 +569,9 @@ theorem old_witnesses_rejected :
 /-- **Normalisation is idempotent.** What the defaults block produces is left unchanged by
     running the block again (a restart file carries the normalised values). -/
 theorem normalise_idempotent (c : Cfg) : normalise (normalise c) = normalise c := by
-  obtain ⟨intf, w, mv, cap, lm1, q, ee, eng, seed, acc⟩ := c
+  obtain ⟨intf, w, mv, cap, lm1, q, ee, eng, seed, acc, cs⟩ := c
   rcases ee with _ | ⟨_ | ⟨n0, ee⟩⟩ <;> rcases q with _ | _ | _ <;> cases intf <;>
-    cases lm1 <;> cases seed <;> cases acc <;> rfl
+    cases lm1 <;> cases seed <;> cases acc <;> cases cs <;> rfl
 
 /-- a raw configuration: no ensemble_engines, seed, lambda_minus_one, accept_all keys; quantis on -/
 def raw : Cfg :=
@@ -555,7 +580,11 @@ def raw : Cfg :=
 
 def rawNormalised : Cfg :=
   { good with
-    ensEngines := some [["engine0"], ["engine"], ["engine"]], quantis := some true, lm1 := .off }
+    ensEngines := some [["engine0"], ["engine"], ["engine"]], quantis := some true, lm1 := .off,
+    curSize := some 3 }
+
+/-- `good` as `setup_config` returns it / as a restart file carries it: with the `[current]` table's size -/
+def goodR : Cfg := { good with curSize := some 3 }
 
 example : normalise raw = rawNormalised ∧ normalise rawNormalised = rawNormalised := by decide
 
@@ -598,7 +627,7 @@ theorem setupConfig_fixed_point (c c' : Cfg) (h : setupConfig c = .ok c') : setu
     unfold setupConfig
     simp [normalise_idempotent, hc]
 
-example : setupConfig { good with ensEngines := none, seed := none } = .ok good := by decide
+example : setupConfig { good with ensEngines := none, seed := none } = .ok goodR := by decide
 
 
 /-! ### both entry branches (fresh start and restart) validate -/
@@ -667,8 +696,11 @@ theorem restart_invalid_rejected (c : Cfg) (cur : Restart) (hinv : ¬ Valid (nor
 
 example : setupFile capBelowWf (some { cstep := 3, restartedFrom := some 0, steps := 10, pathsPresent := true })
       = .error .config ∧
-    setupFile good (some { cstep := 3, restartedFrom := some 0, steps := 10, pathsPresent := true })
-      = .ok (some good) ∧
+    setupFile goodR (some { cstep := 3, restartedFrom := some 0, steps := 10, pathsPresent := true })
+      = .ok (some goodR) ∧
+    setupFile { capBelowWf with cap := some 3, curSize := some 4 }
+        (some { cstep := 3, restartedFrom := some 0, steps := 10, pathsPresent := true })
+      = .error .config ∧
     setupFile capBelowWf (some { cstep := 10, restartedFrom := some 10, steps := 10, pathsPresent := true })
       = .ok none := by decide
 
@@ -810,7 +842,7 @@ theorem workers_boundary (c : Cfg) (h : check c = .ok ()) :
   · rw [check_ok_iff]
     exact {
       pre := { two := hc.pre.two, lm1 := hc.pre.lm1, noQuantisLm1 := hc.pre.noQuantisLm1,
-               workers := Int.le_refl _, sorted := hc.pre.sorted, moves := hc.pre.moves,
+               workers := Int.le_refl _, sorted := hc.pre.sorted, moves := hc.pre.moves, size := hc.pre.size,
                capInside := hc.pre.capInside, capRoom := hc.pre.capRoom, cover := hc.pre.cover,
                engines := hc.pre.engines }
       gromacs := hc.gromacs }
@@ -899,9 +931,9 @@ theorem validB_iff (c : Cfg) : validB c = true ↔ Valid c := by
   unfold validB
   simp only [Bool.and_eq_true, decide_eq_true_eq, strictIncr_iff]
   constructor
-  · rintro ⟨⟨⟨⟨⟨⟨h1, h2⟩, h3⟩, h4⟩, h5⟩, h6⟩, h7⟩
+  · rintro ⟨⟨⟨⟨⟨⟨⟨h1, h2⟩, h3⟩, h4⟩, h5⟩, h6⟩, h7⟩, h8⟩
     refine { sorted := h1, two := h2, workers := h3, moves := h4, capInside := ?_, capRoom := ?_,
-             engines := ?_, lm1 := ?_ }
+             engines := ?_, lm1 := ?_, size := ?_ }
     · intro x hx
       rw [hx] at h5
       cases hf : c.interfaces.head? with
@@ -932,8 +964,11 @@ theorem validB_iff (c : Cfg) : validB c = true ↔ Valid c := by
       cases hf : c.interfaces.head? with
       | none => simp [hf] at h7
       | some f => simp only [hf, decide_eq_true_eq] at h7; exact ⟨f, rfl, h7⟩
+    · intro sz hsz
+      rw [hsz] at h8
+      simpa using h8
   · intro hv
-    refine ⟨⟨⟨⟨⟨⟨hv.sorted, hv.two⟩, hv.workers⟩, hv.moves⟩, ?_⟩, ?_⟩, ?_⟩
+    refine ⟨⟨⟨⟨⟨⟨⟨hv.sorted, hv.two⟩, hv.workers⟩, hv.moves⟩, ?_⟩, ?_⟩, ?_⟩, ?_⟩
     · cases hc : c.cap with
       | none => rfl
       | some x =>
@@ -950,6 +985,9 @@ theorem validB_iff (c : Cfg) : validB c = true ↔ Valid c := by
         obtain ⟨f, hf, h⟩ := hv.lm1 x hl
         simp only [hf, decide_eq_true_eq]
         exact h
+    · cases hs : c.curSize with
+      | none => rfl
+      | some sz => simpa using hv.size sz hs
 
 example : validB good = true ∧ validB capBelowWf = false ∧ validB capZero = false := by decide
 
@@ -1234,9 +1272,9 @@ theorem specMatrix_rows (c : Cfg) (paths : List (List Int)) (h2 : 2 ≤ c.interf
     `interface_cap` whatever it is (0 included), `none` only when the key is absent; and the W matrix of the
     state holds `(1, 0, …)` for the [0-] path, `(0,) +` the demanded weight vector (`specRow`: C10's scan-free
     wire-fencing weight over `[λ_k, cap)`) for every [k+] path, and zeros for the ghost ensemble. -/
-theorem setupInternal_spec (c : Cfg) (h : check c = .ok ()) (hl : c.lm1 ≠ .absent)
+theorem setupInternalAligned_spec (c : Cfg) (h : check c = .ok ()) (hl : c.lm1 ≠ .absent)
     (paths : List (List Int)) (hp : PathsOk c paths) :
-    ∃ s, setupInternal c paths = .ok s ∧
+    ∃ s, setupInternalAligned c paths = .ok s ∧
       initEnsembles c = .ok s.ensembles ∧ s.ensembles.length = c.interfaces.length ∧
       s.cap = c.cap ∧ s.interfaces = c.interfaces ∧ s.moves = c.moves ∧
       s.matrix.length = c.interfaces.length + 1 ∧
@@ -1250,9 +1288,133 @@ theorem setupInternal_spec (c : Cfg) (h : check c = .ok ()) (hl : c.lm1 ≠ .abs
   obtain ⟨m1, m2, m3, m4⟩ := specMatrix_rows c paths hv.two
   refine ⟨{ ensembles := es, matrix := specMatrix c paths, cap := stateCap c,
             interfaces := c.interfaces, moves := c.moves }, ?_, hes, hlen, rfl, rfl, rfl, m1, m2, m3, ?_⟩
-  · simp only [setupInternal, hes, hload]
+  · simp only [setupInternalAligned, hes, hload]
   · intro k ops row hk hops hrow
     simp only [m4 k hk, plusRowOf, hops, hrow, padPlus]
+
+/-! ### the state is sized by `[current].size`: for an accepted configuration that is the number of interfaces -/
+
+/-- `calc_cv_vector` returns one entry per interface -/
+theorem cvVector_length (ops : List Int) (intfs : List Int) (mt : List Bool) (cap : Option Int) (ws : List Nat)
+    (h : cvVector ops intfs mt cap = .ok ws) : ws.length = intfs.length := by
+  unfold cvVector at h
+  cases hm : maxOf ops with
+  | none => simp [hm] at h
+  | some pmax =>
+    cases h0 : intfs.head? with
+    | none => simp [hm, h0] at h
+    | some i0 =>
+      cases hN : intfs.getLast? with
+      | none => simp [hm, h0, hN] at h
+      | some iN =>
+        simp only [hm, h0, hN] at h
+        split at h
+        · simp at h
+        · rename_i ws' hws
+          injection h with h
+          subst h
+          obtain ⟨hlen, _⟩ := Infretis.C10.cvVectorGo_shape ops i0 _ pmax _ _ _ hws
+          have hne : intfs ≠ [] := by intro hn; rw [hn] at h0; simp at h0
+          have : 0 < intfs.length := List.length_pos_iff.2 hne
+          simp only [List.length_append, List.length_singleton, hlen, List.length_dropLast]
+          omega
+
+/-- when the vector is as wide as the state, `add_traj` is the `add_traj` of the aligned model -/
+theorem addTrajW_eq (n ens : Nat) (valid : List Nat) (hl : valid.length = n) :
+    addTrajW n ens valid = addTraj ens valid := by
+  unfold addTrajW addTraj
+  cases hv : valid[ens]? with
+  | none => rfl
+  | some w =>
+    cases w with
+    | zero => rfl
+    | succ k =>
+      have hlt : ens < valid.length := (List.getElem?_eq_some_iff.1 hv).1
+      simp only
+      rw [if_neg (by omega), if_pos hl]
+
+theorem loadPlusOneW_eq (c : Cfg) (i : Nat) (paths : List (List Int)) :
+    loadPlusOneW c c.interfaces.length i paths = loadPlusOne c i paths := by
+  unfold loadPlusOneW loadPlusOne
+  cases paths[i + 1]? with
+  | none => rfl
+  | some ops =>
+    cases hlm : c.lm1 with
+    | absent => rfl
+    | off =>
+      simp only
+      cases hcv : cvVector ops c.interfaces c.moves.tail (stateCap c) with
+      | error e => rfl
+      | ok ws =>
+        simp only
+        exact addTrajW_eq _ _ _ (by simp [padPlus, cvVector_length _ _ _ _ _ hcv])
+    | val x =>
+      simp only
+      cases hcv : cvVector ops c.interfaces c.moves.tail (stateCap c) with
+      | error e => rfl
+      | ok ws =>
+        simp only
+        exact addTrajW_eq _ _ _ (by simp [padPlus, cvVector_length _ _ _ _ _ hcv])
+
+theorem loadPlusW_eq (c : Cfg) (paths : List (List Int)) : ∀ (count start : Nat),
+    loadPlusW c c.interfaces.length paths start count = loadPlus c paths start count := by
+  intro count
+  induction count with
+  | zero => intro start; rfl
+  | succ n ih =>
+    intro start
+    simp only [loadPlusW, loadPlus, loadPlusOneW_eq, ih]
+
+/-- **A state written for the configured number of interfaces loads like the aligned model**: the width test
+    of `add_traj` cannot fire. -/
+theorem loadPathsW_eq_loadPaths (c : Cfg) (paths : List (List Int)) :
+    loadPathsW c c.interfaces.length paths = loadPaths c paths := by
+  unfold loadPathsW loadPaths
+  simp only [loadPlusW_eq]
+  cases loadPlus c paths 0 (c.interfaces.length - 1) with
+  | error e => rfl
+  | ok rows =>
+    simp only
+    cases paths[0]? with
+    | none => rfl
+    | some p0 =>
+      simp only
+      rw [addTrajW_eq _ _ _ (by simp [padMinus])]
+
+theorem setupInternal_eq_aligned (c : Cfg) (paths : List (List Int))
+    (hs : c.curSize = some c.interfaces.length) : setupInternal c paths = setupInternalAligned c paths := by
+  unfold setupInternal setupInternalAligned
+  simp only [hs, loadPathsW_eq_loadPaths]
+
+/-- an accepted configuration that has a `[current]` table has it for its own number of interfaces -/
+theorem accepted_size (c : Cfg) (h : check c = .ok ()) (hs : c.curSize ≠ none) :
+    c.curSize = some c.interfaces.length := by
+  cases hc : c.curSize with
+  | none => exact absurd hc hs
+  | some s => rw [(accept_sound c h).size s hc]
+
+example : check goodR = .ok () ∧ goodR.curSize ≠ none := by decide
+
+/-- **Accepted configurations initialise (`setup_internal`), whatever `[current]` table they came with.**
+    The statement of `setupInternalAligned_spec` for the `setup_internal` that sizes the state with
+    `[current].size`: no hypothesis on the size — `check_config` has tested it (/repo 971ccbc); `hs` only says
+    that there is a `[current]` table at all (`setup_config` always leaves one: `accepted_starts_up` needs
+    neither `hl` nor `hs`). -/
+theorem setupInternal_spec (c : Cfg) (h : check c = .ok ()) (hl : c.lm1 ≠ .absent) (hs : c.curSize ≠ none)
+    (paths : List (List Int)) (hp : PathsOk c paths) :
+    ∃ s, setupInternal c paths = .ok s ∧
+      initEnsembles c = .ok s.ensembles ∧ s.ensembles.length = c.interfaces.length ∧
+      s.cap = c.cap ∧ s.interfaces = c.interfaces ∧ s.moves = c.moves ∧
+      s.matrix.length = c.interfaces.length + 1 ∧
+      s.matrix[0]? = some (1 :: List.replicate c.interfaces.length 0) ∧
+      s.matrix[c.interfaces.length]? = some (List.replicate (c.interfaces.length + 1) 0) ∧
+      ∀ (k : Nat) (ops : List Int) (row : List Nat), k + 1 < c.interfaces.length →
+        paths[k + 1]? = some ops → specRow c ops = some row → s.matrix[k + 1]? = some (0 :: row) := by
+  rw [setupInternal_eq_aligned c paths (accepted_size c h hs)]
+  exact setupInternalAligned_spec c h hl paths hp
+
+theorem normalise_curSize (c : Cfg) : (normalise c).curSize ≠ none := by
+  simp [normalise]
 
 theorem normalise_lm1 (c : Cfg) : (normalise c).lm1 ≠ .absent := by
   cases h : c.lm1 <;> simp [normalise, h]
@@ -1274,7 +1436,8 @@ theorem accepted_starts_up (c0 c : Cfg) (h : setupConfig c0 = .ok c) (paths : Li
     | error e => simp [hcc] at h
     | ok u => cases u; rw [hc]; exact hcc
   have hl : c.lm1 ≠ .absent := by rw [hc]; exact normalise_lm1 c0
-  obtain ⟨s, hs, _, h2, h3, h4, h5, h6, _, _, h9⟩ := setupInternal_spec c hchk hl paths hp
+  have hcs : c.curSize ≠ none := by rw [hc]; exact normalise_curSize c0
+  obtain ⟨s, hs, _, h2, h3, h4, h5, h6, _, _, h9⟩ := setupInternal_spec c hchk hl hcs paths hp
   have hi : c.interfaces = c0.interfaces := by rw [hc]; rfl
   have hcap : c.cap = c0.cap := by rw [hc]; rfl
   have hmv : c.moves = c0.moves := by rw [hc]; rfl
@@ -1289,7 +1452,7 @@ theorem accepted_starts_up (c0 c : Cfg) (h : setupConfig c0 = .ok c) (paths : Li
 def capZeroWf : Cfg :=
   { good with
     interfaces := [-4, -2, 0, 4], workers := 1, moves := [false, true, true, false], cap := some 0,
-    lm1 := .off, ensEngines := some [["engine"], ["engine"], ["engine"], ["engine"]] }
+    lm1 := .off, ensEngines := some [["engine"], ["engine"], ["engine"], ["engine"]], curSize := some 4 }
 
 /-- its initial paths: [1+] goes over the cap, comes back to λ1, goes over it again and returns -/
 def capZeroPaths : List (List Int) :=
@@ -1308,7 +1471,7 @@ theorem cap_zero_is_a_cap :
 
 /-- wire fencing in [1+] of [0,2,4] without a cap; the [1+] path -1, 1, 5 crosses λ1 = 2 between two frames
     and ends right of λ2 = 4 (a valid L→R path by `Path.check_interfaces`) but has no frame inside [2, 4) -/
-def jumpCfg : Cfg := { good with workers := 1, cap := none, lm1 := .off }
+def jumpCfg : Cfg := { good with workers := 1, cap := none, lm1 := .off, curSize := some 3 }
 def jumpPaths : List (List Int) := [[0, -1, 0], [-1, 0, -1], [-1, 1, 5]]
 
 /-- **What `PathsOk` excludes.**  An accepted configuration with a wire-fencing ensemble and an initial
@@ -1415,7 +1578,7 @@ def goodInput : TomlFile :=
   { sections := [("runner", 1), ("simulation", 2), ("engine", 3), ("notes", 0)], cfg := good, pattern := false,
     current := none }
 def goodRestart : TomlFile :=
-  { sections := [("runner", 1), ("simulation", 2), ("engine", 3), ("current", 4)], cfg := good, pattern := false,
+  { sections := [("runner", 1), ("simulation", 2), ("engine", 3), ("current", 4)], cfg := goodR, pattern := false,
     current := some { cstep := 3, restartedFrom := some 0, steps := 10, pathsPresent := true } }
 
 example : chooseFile goodInput false (some goodRestart) = goodRestart ∧
@@ -1468,9 +1631,9 @@ theorem setupConfigFiles_sound (inp : Option TomlFile) (samePath : Bool) (re : O
           · intro _; exact ⟨r, hc, rfl, rfl⟩
 
 example : setupConfigFiles (some goodInput) false (some goodRestart) =
-    .ok (some { cfg := good, fresh := none, restartedFrom := some 3, wroteHeader := false, patternFile := false }) ∧
+    .ok (some { cfg := goodR, fresh := none, restartedFrom := some 3, wroteHeader := false, patternFile := false }) ∧
   setupConfigFiles (some goodInput) false none =
-    .ok (some { cfg := good, restartedFrom := none, wroteHeader := true, patternFile := false,
+    .ok (some { cfg := goodR, restartedFrom := none, wroteHeader := true, patternFile := false,
                 fresh := some { trajNum := 3, cstep := 0, active := [0, 1, 2], size := 3, restartedFrom := none } }) := by
   decide
 
@@ -1515,6 +1678,115 @@ theorem restart_file_fixed_point (inp : Option TomlFile) (samePath : Bool) (re :
 
 example : (⟨3, some 0, 10, true⟩ : Restart).finished = false := by decide
 
+
+/-! ## a restart state written for another number of interfaces (/repo commit 971ccbc)
+
+Before the repair `check_config` did not look at the `[current]` table: a restart file whose `[current].size`
+differs from the number of interfaces (an interface added to or removed from a restart file) was accepted and
+`setup_internal` then raised ValueError in `load_paths` (`self.state[ens, :] = valid`: "could not broadcast
+input array").  `checkAsIs` / `startUpAsIs` keep that code as a record. -/
+
+/-- the new test is the only difference: where it passes, the two checks agree -/
+theorem check_eq_asIs_of_size (c : Cfg) (h : sizeTest c = .ok ()) : check c = checkAsIs c := by
+  unfold check checkAsIs preCheck preCheckAsIs
+  simp only [h, seq]
+
+/-- **What 971ccbc changed, exactly.** The repaired `check_config` accepts a configuration iff the old one did
+    and the `[current]` table (if any) was written for this number of interfaces. -/
+theorem check_ok_iff_asIs (c : Cfg) :
+    check c = .ok () ↔ checkAsIs c = .ok () ∧ ∀ s, c.curSize = some s → s = c.interfaces.length := by
+  constructor
+  · intro h
+    have hsz := ((check_ok_iff c).1 h).pre.size
+    exact ⟨by rw [← check_eq_asIs_of_size c ((sizeTest_ok_iff c).2 hsz)]; exact h, hsz⟩
+  · rintro ⟨h, hsz⟩
+    rw [check_eq_asIs_of_size c ((sizeTest_ok_iff c).2 hsz)]; exact h
+
+example : checkAsIs goodR = .ok () ∧ ∀ s, goodR.curSize = some s → s = goodR.interfaces.length :=
+  (check_ok_iff_asIs goodR).1 (by decide)
+
+/-- interfaces [0, 2, 4, 6], all shooting, in a restart file whose `[current]` table was written for 3 interfaces -/
+def sizeMismatch : Cfg :=
+  { good with
+    interfaces := [0, 2, 4, 6], workers := 1, moves := [false, false, false, false], cap := none, lm1 := .off,
+    ensEngines := some [["engine"], ["engine"], ["engine"], ["engine"]], curSize := some 3 }
+
+/-- valid initial paths for the four ensembles of `sizeMismatch` -/
+def sizeMismatchPaths : List (List Int) :=
+  [[0, -1, 0], [-1, 0, -1], [-1, 0, 1, 2, 1, 0, -1], [-1, 0, 1, 2, 3, 4, 3, 2, 1, 0, -1]]
+
+/-- **The defect 971ccbc repaired (record).**  The old `check_config` accepted the restart configuration
+    `sizeMismatch` — every other clause of the property's list holds — and the start-up then failed with
+    ValueError in `load_paths`: an accepted configuration that does not initialise.  The repaired
+    `check_config` rejects it with a TOMLConfigError before anything starts; with a `[current]` table written for
+    4 interfaces the same configuration is accepted and starts up. -/
+theorem restart_size_mismatch_asIs_counterexample :
+    checkAsIs sizeMismatch = .ok () ∧
+    startUpAsIs sizeMismatch sizeMismatchPaths = .error .value ∧
+    check sizeMismatch = .error .config ∧
+    startUp sizeMismatch sizeMismatchPaths = .error (.cfg .config) ∧
+    ¬ Valid sizeMismatch ∧
+    check { sizeMismatch with curSize := some 4 } = .ok () ∧
+    (startUp { sizeMismatch with curSize := some 4 } sizeMismatchPaths).map (fun s => s.matrix) =
+      .ok [[1, 0, 0, 0, 0], [0, 1, 0, 0, 0], [0, 1, 1, 0, 0], [0, 1, 1, 1, 0], [0, 0, 0, 0, 0]] := by
+  refine ⟨by decide, by decide, by decide, by decide, ?_, by decide, by decide⟩
+  intro hv
+  have := hv.size 3 rfl
+  simp [sizeMismatch] at this
+
+/-- the other direction of the mismatch: a `[current]` table written for more interfaces than are defined -/
+example : checkAsIs { good with curSize := some 5 } = .ok () ∧
+    startUpAsIs { good with curSize := some 5, cap := none, moves := [false, false, false], lm1 := .off }
+      [[0, -1, 0], [-1, 0, -1], [-1, 0, 1, 2, 1, 0, -1]] = .error .value ∧
+    check { good with curSize := some 5 } = .error .config := by decide
+
+/-- **A restart that is accepted starts up.**  Whatever `setup_config` returns on either branch — in particular
+    from a restart file with its own `[current]` table — initialises with valid initial paths: the size of the
+    restart state is no longer a separate assumption, it follows from acceptance. -/
+theorem restart_accepted_starts_up (c c' : Cfg) (r : Option Restart) (h : setupFile c r = .ok (some c'))
+    (paths : List (List Int)) (hp : PathsOk c' paths) :
+    c'.curSize = some c'.interfaces.length ∧
+    ∃ s, setupInternal c' paths = .ok s ∧ s.ensembles.length = c'.interfaces.length ∧
+      s.cap = c'.cap ∧ s.interfaces = c'.interfaces ∧ s.moves = c'.moves ∧
+      s.matrix.length = c'.interfaces.length + 1 ∧
+      ∀ (k : Nat) (ops : List Int) (row : List Nat), k + 1 < c'.interfaces.length →
+        paths[k + 1]? = some ops → specRow c' ops = some row → s.matrix[k + 1]? = some (0 :: row) := by
+  obtain ⟨hn, hchk, _, _⟩ := setup_config_validates_both_branches c c' r h
+  have hl : c'.lm1 ≠ .absent := by rw [hn]; exact normalise_lm1 c
+  have hcs : c'.curSize ≠ none := by rw [hn]; exact normalise_curSize c
+  obtain ⟨s, hs, _, h2, h3, h4, h5, h6, _, _, h9⟩ := setupInternal_spec c' hchk hl hcs paths hp
+  exact ⟨accepted_size c' hchk hcs, s, hs, h2, h3, h4, h5, h6, h9⟩
+
+example : setupFile capZeroWf (some { cstep := 3, restartedFrom := some 0, steps := 10, pathsPresent := true })
+      = .ok (some capZeroWf) ∧ PathsOk capZeroWf capZeroPaths := ⟨by decide, capZero_pathsOk⟩
+
+/-- **Re-reading a restart file is a fixed point, `output.pattern_file` included.**  `restart_file_fixed_point`
+    for a restart file that carries the key `output.pattern_file` (a run with `output.pattern`): the key is
+    handed on as it is. -/
+theorem restart_file_fixed_point_pattern (inp : Option TomlFile) (samePath : Bool) (re : Option TomlFile)
+    (o : SetupOut) (h : setupConfigFiles inp samePath re = .ok (some o))
+    (secs : List (String × Nat)) (pat pf : Bool) (cur : Restart)
+    (hgo : cur.finished = false) (hp : cur.pathsPresent = true) :
+    setupConfigFiles (some { sections := secs, cfg := o.cfg, pattern := pat, current := some cur,
+                             hasPatternFile := pf }) true none =
+      .ok (some { cfg := o.cfg, fresh := none, restartedFrom := some cur.cstep, wroteHeader := false,
+                  patternFile := pf }) := by
+  obtain ⟨_, hchk, _, _⟩ := setupConfigFiles_sound inp samePath re o h
+  obtain ⟨fi, _, hcfg, _, _⟩ := (setupConfigFiles_sound inp samePath re o h).2.2.2
+  have hfix : setupConfig o.cfg = .ok o.cfg := by
+    unfold setupConfig
+    rw [hcfg, normalise_idempotent, ← hcfg, hchk]
+  have hsf : setupFile o.cfg (some cur) = .ok (some o.cfg) := by
+    simp [setupFile, hgo, hp, hfix]
+  unfold setupConfigFiles
+  simp only [show ∀ f : TomlFile, chooseFile f true none = f from fun _ => rfl, hsf]
+
+/-- a fresh start with `output.pattern` sets the key; the restart file written afterwards carries it and hands it on -/
+example : (setupConfigFiles (some { goodInput with pattern := true }) false none).map (fun o => o.map (·.patternFile))
+      = .ok (some true) ∧
+    setupConfigFiles (some { goodRestart with pattern := true, hasPatternFile := true }) true none =
+      .ok (some { cfg := goodR, fresh := none, restartedFrom := some 3, wroteHeader := false, patternFile := true }) := by
+  decide
 
 /-! ## engine instances (`create_engines`) -/
 
